@@ -215,6 +215,7 @@ def c15(ctx):
     flush.flush2(ctx)
     flush.close1(ctx)
     flush.close2(ctx)
+    flush.close3(ctx)
     return ctx.finish(explanation="typestate rule flush-before-drop over every internally created container stream; error-discipline rule over all "
                       "io::Result call sites; close-path completeness. That the bytes after Ok equal the described state is not decided")
 
@@ -226,6 +227,7 @@ def c01(ctx):
     flush.dirty2(ctx)
     flush.close1(ctx)
     flush.close2(ctx)
+    flush.close3(ctx)
     codec.codec_e(ctx)
     flush.flush1(ctx)
     codec.cell_codec(ctx)
